@@ -1342,13 +1342,14 @@ def _get_default_configurable_parameter_values(fn, allowlist, denylist):
 
   # Now, eliminate keywords that are denylisted, or aren't allowlisted (if
   # there's an allowlist), or aren't representable as a literal value, or that
-  # can't be bound at all (positional-only parameters).
+  # no binding can fill (positional-only parameters; with `**kwargs` a binding
+  # of that name is accepted but lands there, not in the parameter).
   positional_only = _get_positional_only_parameter_names(fn)
   for k in list(arg_vals):
     allowlist_fail = allowlist and k not in allowlist
     denylist_fail = denylist and k in denylist
     representable = _is_literally_representable(arg_vals[k])
-    unbindable = k in positional_only and not _get_cached_arg_spec(fn).varkw
+    unbindable = k in positional_only
     if allowlist_fail or denylist_fail or not representable or unbindable:
       del arg_vals[k]
 
